@@ -262,7 +262,7 @@ func init() {
 				panic(goPanic{"nil mutex"})
 			}
 			k := ptrKey(p)
-			if c.yieldPoint() {
+			if (kind == "lock" || kind == "rlock") && c.yieldPoint() {
 				return nil, false
 			}
 			m := c.s.Mutex[k]
